@@ -457,10 +457,10 @@ findInsertionPointBinarySearch(
 inline const XalanNode*
 getOwnerNormalized(const XalanNode&     node)
 {
-    const XalanNode::NodeType   theType = node.getNodeType();
-
-    return theType == XalanNode::DOCUMENT_NODE ||
-           theType == XalanNode::DOCUMENT_FRAGMENT_NODE ?
+    // The root of a result tree fragment is a document fragment.  Its
+    // nodes are owned by the document that was used to build it, and
+    // so is the fragment itself, so that answer is the right one.
+    return node.getNodeType() == XalanNode::DOCUMENT_NODE ?
                 &node : node.getOwnerDocument();
 }
 
@@ -654,13 +654,8 @@ MutableNodeRefList::addNodeInDocOrder(
 
                 // Normalize so that if we have a document node, it owns
                 // itself, which is not how DOM works...
-                const XalanNode::NodeType   theFirstNodeType =
-                    theFirstNode->getNodeType();
-
                 const XalanNode* const  theFirstNodeOwner =
-                     theFirstNodeType == XalanNode::DOCUMENT_NODE ||
-                     theFirstNodeType == XalanNode::DOCUMENT_FRAGMENT_NODE ?
-                            theFirstNode : theFirstNode->getOwnerDocument();
+                    getOwnerNormalized(*theFirstNode);
                 assert(theFirstNodeOwner != 0);
 
                 if (node->isIndexed() == true &&
@@ -670,12 +665,8 @@ MutableNodeRefList::addNodeInDocOrder(
                     // nodes from the same document.
                     // Normalize so that if we have a document node, it owns
                     // itself, which is not how DOM works...
-                    const XalanNode::NodeType   theLastNodeType =
-                            theLastNode->getNodeType();
                     const XalanNode* const  theLastNodeOwner =
-                        theLastNodeType == XalanNode::DOCUMENT_NODE ||
-                        theLastNodeType == XalanNode::DOCUMENT_FRAGMENT_NODE ?
-                                theLastNode : theLastNode->getOwnerDocument();
+                        getOwnerNormalized(*theLastNode);
                     assert(theLastNodeOwner != 0);
 
                     // If the owner document is 0, then it's a document node, so there's not
